@@ -32,3 +32,10 @@ chk("C29", "model_checking", "explicit-state BFS of the full reachable state gra
 chk("C27", "model_checking", "bounded-depth exhaustive enumeration of open/close/drop sequences on the real producers over a counting backend, against a refcount model",
     "Every sequence over {open,close,drop} x {a,b} up to depth 7 (quick) / 9 (thorough) for both Wrap and WrapAll; same-store identity, backend open/close counts per instance at every step, over-close errors and the drop bound are compared with a per-name reference-count model.",
     "Stale handles (all opens closed, name re-opened since) are not re-used: use-after-close is outside the statement.", "E2; DESIGN §7 C27")
+
+chk("C19", "exploration", "exhaustive enumeration of (existing, options, strategy script) over a 5-hash pool; scripted rank strategies cover every possible choice",
+    "Every duplicate-free existing list (len 0-2), every options list (len 0-4 incl. duplicates/overlaps) and every vector of 0-3 scripted rank strategies, plus MetricStrategy under every metric assignment from {0,1,2,2^64-1}^5, is run through the real ChooseParents; prefix, count, no-repeat, offered-set and max-metric clauses are checked on each.",
+    "Scripted strategy picks by rank among the offered options, so the result is independent of the internal map-order shuffle.", "E4; DESIGN §6 C19")
+chk("C22", "model_checking", "model-only BFS of abstract states to a depth bound; every outgoing transition executed on the real Flushable/LazyFlushable (replay shortest path + 1 op) with full observation against the model",
+    "Abstract states (underlying contents, overlay with tombstones, live snapshot, open iterator with cursor and life-time view history) reachable within depth 4 (quick) / 6 (thorough) over a colliding key alphabet; every op of a ~40-op alphabet (puts, deletes, 2-write batches incl. Replay/ValueSize, flush, drop, direct underlying writes, snapshot, iterator open/next/release) is executed in every state on the real code over a reference store; Get/Has for all keys, iteration for every (prefix,start) pair, NotFlushedPairs, the underlying store's contents and snapshot reads are compared with the model.",
+    "Iterators spanning later writes are held to the weakly-consistent contract only. The reference store ref/kv is the trusted base.", "E2; DESIGN §7 C22")
